@@ -29,6 +29,11 @@ LAYOUTS = {
     'interleaved': [('a', 'string', False), ('name', 'string', True), ('b', 'int32', False), ('parent', 'string', True), ('c', 'bool', False)],
     'reserved': [('class', 'string', False), ('from', 'string', True), ('name', 'string', False), ('import', 'int32', True)],
     'none': [],
+    'single': [('name', 'string', True)],
+    'single-optional': [('filter', 'string', False)],
+    # REQUIRED next to other behaviours (6th element: the behaviour list), declared after optional fields
+    'several-behaviours': [('parent', 'string', True, 1, False), ('note', 'string', False, 2, False), ('book', 'string', 'RI', 3, False),
+                           ('book_id', 'string', 'IR', 4, False), ('validate_only', 'bool', False, 5, False)],
     # proto3 optional and REQUIRED at once, declared after a non-required field (5th element: proto3 optional)
     'optional-required': [('name', 'string', True, 1, False), ('update_note', 'string', False, 2, False), ('etag', 'string', True, 3, True),
                           ('mask', 'string', False, 4, True)],
@@ -53,11 +58,14 @@ def build(n_services, transport, internal=False, P=P, subsvc=False):
             k += 1
             layout = lay[(ri + si) % len(lay)]
             rq = f'{sname}{rpc[0].upper()}{rpc[1:]}Request'
-            fs = [field(x[0], x[3] if len(x) > 3 else i + 1, x[1], required=x[2], optional=(len(x) > 4 and x[4])) for i, x in enumerate(LAYOUTS[layout])]
+            from google.api import field_behavior_pb2 as fb
+            BEH = {'RI': [fb.REQUIRED, fb.INPUT_ONLY], 'IR': [fb.IMMUTABLE, fb.REQUIRED]}
+            fs = [field(x[0], x[3] if len(x) > 3 else i + 1, x[1], required=(x[2] is True), behaviors=BEH.get(x[2], ()),
+                        optional=(len(x) > 4 and x[4])) for i, x in enumerate(LAYOUTS[layout])]
             msgs.append(message(rq, fs))
             cs, ss = ARITY.get(rpc, (False, False))
             http = None if cs else ('post', f'/v1/{sname.lower()}/{ri}', '*')
-            meths.append(method(rpc, Q(rq), Q('Resp') if ri % 4 else EMPTY, http=http, cs=cs, ss=ss))
+            meths.append(method(rpc, Q(rq), Q('Resp') if ri % 4 else EMPTY, http=http, cs=cs, ss=ss, deprecated=(rpc == 'GetV2Thing')))
             table.setdefault(sname, {})[rpc] = dict(layout=layout, fields=[x[0] for x in LAYOUTS[layout]],
                                                     required=[x[0] for x in LAYOUTS[layout] if x[2]])
         if si == 0:
